@@ -123,10 +123,27 @@ def accepted_load_that_fails(ctx, mods, i):
             ctx.agg.count("accepted_loads_that_failed")
 
 
+def tail_bytes(name):
+    """What follows the stack in the file: nothing, or a zip archive (as in a pickle / checkpoint polyglot) whose
+    `model/data.pkl` member is a pickle of another severity than the file's own first pickle.  The zip signature does
+    not start a pickle, so the file's pickles are the ones in front of it - for every face."""
+    if not name:
+        return b""
+    import zipfile
+    buf = io.BytesIO()
+    with zipfile.ZipFile(buf, "w") as z:
+        z.writestr("model/data.pkl", {"zip-benign": pickle.dumps([1, 2, 3], 2), "zip-flagged": b"cos\ngetpid\n(tR.",
+                                      "zip-flagged-root": b"cvp_sink\nhit\n(tR."}[name])
+        if name == "zip-flagged-root":
+            z.writestr("data.pkl", b"cvp_sink\nhit\n(tR.")
+        z.writestr("model/version", b"3\n")
+    return buf.getvalue()
+
+
 def check_file(ctx, mods, label, parts, opts):
     f, analysis, loader, cli, fickling, U = mods
     agg = ctx.agg
-    data = b"".join(parts)
+    data = b"".join(parts) + tail_bytes(opts.get("tail"))
     if int(h(data)[:2], 16) % 3 == 0:
         accepted_load_that_fails(ctx, mods, len(data))
     key = h(data + repr(sorted(opts.items())).encode())
@@ -451,6 +468,8 @@ def stacks(ctx):
             if k <= 2:
                 for o in optsets:
                     yield "fam-" + "+".join(combo), parts, o
+                # the same stack in front of a zip archive
+                yield "fam-" + "+".join(combo) + "+ziptail", parts, dict(optsets[0], tail=("zip-benign", "zip-flagged", "zip-flagged-root")[idx % 3])
     # random stacks of natural + vocabulary pickles
     import vp_sink
     pool = list(FAMILIES.values())
